@@ -307,5 +307,6 @@ theorem tie_number_to_bit_other (v L : PV) (fuel : Nat) (h1 : ∀ s, v ≠ .str 
   | tup l => rfl
   | bool b => rfl
   | none => rfl
+  | arr l => rfl
 
 end Dsw.Tie
